@@ -22,17 +22,17 @@ func (c06) ID() string { return "C06" }
 
 func (c06) Budget(tier string) int {
 	if tier == "thorough" {
-		return 12000
+		return 16000
 	}
-	return 420
+	return 640
 }
 
 func (c06) Describe() engine.Info {
 	return engine.Info{
-		Rule: "class history: cartridge (ROM-only/MBC1/MBC2/MBC3/MBC5) + 100..1500 reads and writes with address classes weighted so that every I/O register FF00-FF7F, every region boundary +-1 (8000, A000, C000, DE00, E000, FE00, FEA0, FF00, FF80, FFFF) and every region are hit, 0..3 cycles apart with occasional long gaps; sub-classes lcd-off (LCD switched off first and kept off: VRAM and OAM are judged) and lcd-any. Class sweep: every address of a 2048-address chunk (index-enumerated over the whole 64 KiB) gets one write and an immediate read-back. After every write the address and its mirror are read back; every 200 operations and at the end all 65,536 addresses are compared. " +
+		Rule: "class timer-hot: timer at its fastest rate with TMA near FF, writes and reads of DIV/TIMA/TMA/TAC/IF 1..5 cycles apart so that writes land in every cycle of the overflow/reload sequence; class ie-dispatch: the CPU loops with the master enable set while IE and IF are written and read (requests are dispatched in between): IE stays plain memory, IF keeps its unused bits; class history: cartridge (ROM-only/MBC1/MBC2/MBC3/MBC5) + 100..1500 reads and writes with address classes weighted so that every I/O register FF00-FF7F, every region boundary +-1 (8000, A000, C000, DE00, E000, FE00, FEA0, FF00, FF80, FFFF) and every region are hit, 0..3 cycles apart with occasional long gaps; sub-classes lcd-off (LCD switched off first and kept off: VRAM and OAM are judged) and lcd-any. Class sweep: every address of a 2048-address chunk (index-enumerated over the whole 64 KiB) gets one write and an immediate read-back. After every write the address and its mirror are read back; every 200 operations and at the end all 65,536 addresses are compared. " +
 			"Oracle: reference memory map with per-register write masks, unused bits reading 1, unmapped I/O reading FF, echo both ways, FEA0-FEFF = 00, reference timer for DIV/TIMA/TMA/TAC, LY/STAT mode only judged with the LCD off (C13 otherwise), sound registers left to C18. Signature = (address class, operation, LCD on, value class).",
 		Assumptions:    []string{"OBP0/OBP1 bits 0-1 are accepted either way (unused by the hardware)", "after an OAM DMA the model takes over the resulting OAM contents (C16 judges them)", "VRAM/OAM are judged only while the LCD has been off since their last resynchronisation", "no buttons are held"},
-		RequiredProbes: []string{"full_sweeps", "echo_checked", "unmapped_io_checked", "div_written", "ly_written", "dma_register_written", "vram_oam_checked_lcd_off"},
+		RequiredProbes: []string{"ie_read_while_dispatching", "timer_reload_cycle_write", "full_sweeps", "echo_checked", "unmapped_io_checked", "div_written", "ly_written", "dma_register_written", "vram_oam_checked_lcd_off"},
 		RealComponents: realComponents, StubComponents: stubComponents,
 		Sweeps: []string{"single write + read-back of every address 0000-FFFF (32 chunks of 2048, class sweep)"},
 	}
@@ -77,6 +77,63 @@ func (c06) Generate(r *engine.Rand, index int, tier string) *engine.Scenario {
 		sc.SetP("vseed", int64(r.U64()>>1))
 		sc.SetP("lcdoff", int64(r.Intn(2)))
 		sc.Cycles = 1
+		return sc
+	}
+	if index%8 == 5 {
+		// the timer registers under a running, frequently overflowing timer: TMA and TAC read back
+		// what was written whenever the write lands (reload cycles included)
+		sc.Class = "timer-hot"
+		sc.SetP("lcdoff", 1)
+		at := uint64(1)
+		sc.Events = append(sc.Events, engine.Event{At: at, K: "bus_w", A: 0xff07, V: 0x05})
+		for i, n := 0, r.Range(100, 600); i < n; i++ {
+			at += uint64(r.Range(1, 6))
+			a := engine.Pick(r, []uint16{0xff06, 0xff06, 0xff06, 0xff05, 0xff07, 0xff04, 0xff0f})
+			if r.Chance(1, 2) {
+				sc.Events = append(sc.Events, engine.Event{At: at, K: "bus_r", A: engine.Pick(r, []uint16{0xff06, 0xff07, 0xff05, 0xff04})})
+				continue
+			}
+			v := r.EdgeByte()
+			switch a {
+			case 0xff06, 0xff05:
+				if r.Chance(3, 4) {
+					v = 0xf0 | r.Byte()&0x0f
+				}
+			case 0xff07:
+				if r.Chance(3, 4) {
+					v = 0x05 | r.Byte()&0xf8
+				}
+			case 0xff04:
+				if r.Chance(2, 3) {
+					continue
+				}
+			}
+			sc.Events = append(sc.Events, engine.Event{At: at, K: "bus_w", A: a, V: v})
+		}
+		sc.Cycles = at + 8
+		return sc
+	}
+	if index%8 == 1 {
+		// IE and IF while the CPU dispatches: the guest loop runs with the master enable set, so
+		// written requests are taken; IE stays plain memory and IF keeps its unused bits
+		sc.Class = "ie-dispatch"
+		sc.SetP("lcdoff", 1)
+		sc.SetP("ime", 1)
+		at := uint64(1)
+		for i, n := 0, r.Range(40, 300); i < n; i++ {
+			at += uint64(r.Range(1, 40))
+			switch r.Intn(4) {
+			case 0:
+				sc.Events = append(sc.Events, engine.Event{At: at, K: "bus_w", A: 0xffff, V: r.EdgeByte()})
+			case 1:
+				sc.Events = append(sc.Events, engine.Event{At: at, K: "bus_w", A: 0xff0f, V: r.Byte()})
+			case 2:
+				sc.Events = append(sc.Events, engine.Event{At: at, K: "bus_r", A: 0xffff})
+			default:
+				sc.Events = append(sc.Events, engine.Event{At: at, K: "bus_r", A: engine.Pick(r, []uint16{0xff0f, 0xffff, 0xff80 + uint16(r.Intn(0x70))})})
+			}
+		}
+		sc.Cycles = at + 40
 		return sc
 	}
 	sc.Class = "history"
@@ -182,11 +239,26 @@ func (c06) Execute(sc *engine.Scenario) *engine.Result {
 		write(0xff40, 0x11)
 		resyncVideo()
 	}
+	dispatching := sc.P("ime", 0) != 0
+	if dispatching {
+		m.IRQ.Enable()
+	}
 	dg := engine.NewDigest()
 	ok := true
 	check := func(a uint16, op string) bool {
 		want, mask := ref.Read(a)
 		cls := c06Class(a)
+		if dispatching {
+			switch {
+			case a >= 0xfff0 && a < 0xfffc:
+				return true // the stack of the dispatching CPU
+			case a == 0xff0f:
+				mask &= 0xe0 // which requests have been taken is C04's; the unused bits are judged
+			}
+			if a == 0xffff {
+				res.Probe("ie_read_while_dispatching")
+			}
+		}
 		if (cls == "vram" || cls == "oam") && !videoTrusted {
 			mask = 0
 		}
@@ -271,6 +343,9 @@ func (c06) Execute(sc *engine.Scenario) *engine.Result {
 			switch ev.K {
 			case "bus_w":
 				wasOn := ref.LCDOn()
+				if ev.A == 0xff06 && ref.Timer.Phase == 2 {
+					res.Probe("timer_reload_cycle_write")
+				}
 				write(ev.A, ev.V)
 				if wasOn && !ref.LCDOn() {
 					resyncVideo() // the LCD was on: video memory may have been touched by the OAM bug
